@@ -20,9 +20,16 @@ _CUSTOM = [{}]
 
 # Harness hook: callable(layer, name, shape, dtype, initializer, constraint) -> Tensor or None
 WEIGHT_PROVIDER = [None]
+# Harness hook: callable(name, shape, dtype) -> Tensor standing for a keras.Input (the functional
+# API is modelled eagerly: the model construction IS one evaluation on these tensors)
+INPUT_PROVIDER = [None]
+# Harness hook: list collecting every Layer instance created while it is installed
+LAYER_RECORDER = [None]
 
 
 def _shape_of(x):
+  if isinstance(x, dict):
+    return {k: _shape_of(v) for k, v in x.items()}
   if isinstance(x, (list, tuple)) and x and isinstance(x[0], tfc.Tensor):
     return [t.shape for t in x]
   if isinstance(x, tfc.Tensor):
@@ -45,6 +52,8 @@ class Layer(object):
     self._weights = []
     self._losses = []
     self.input_spec = None
+    if LAYER_RECORDER[0] is not None:
+      LAYER_RECORDER[0].append(self)
 
   @property
   def name(self):
@@ -60,6 +69,7 @@ class Layer(object):
     shape = [int(s) for s in (shape if shape is not None else [])]
     value = None
     if WEIGHT_PROVIDER[0] is not None:
+      self._vt_adding_trainable = True if trainable is None else bool(trainable)
       value = WEIGHT_PROVIDER[0](self, name, shape, dt, initializer, constraint)
     if value is None:
       init = initializers.get(initializer) if initializer is not None else initializers.Zeros()
@@ -355,26 +365,58 @@ class _NotModelled(object):
     raise tfc.NoContract('keras.%s is not modelled' % type(self).__name__)
 
 
-class Model(_NotModelled):
-  pass
+class Model(Layer):
+  """Eager stand-in for the functional API: `inputs` / `outputs` are the tensors of the one
+  evaluation performed while the model was constructed (see INPUT_PROVIDER)."""
+
+  def __init__(self, inputs=None, outputs=None, name=None, trainable=True, **kwargs):
+    super(Model, self).__init__(name=name, trainable=trainable)
+    self.inputs = inputs
+    self.outputs = outputs
 
 
 class Sequential(_NotModelled):
   pass
 
 
+class _Concatenate(Layer):
+
+  def __init__(self, axis=-1, **kw):
+    super(_Concatenate, self).__init__(**kw)
+    self.axis = axis
+
+  def call(self, inputs):
+    return tfc.concat(list(inputs), axis=self.axis)
+
+
+class _Average(Layer):
+
+  def call(self, inputs):
+    inputs = list(inputs)
+    if len(inputs) < 2:
+      raise ValueError('A merge layer should be called on a list of at least 2 inputs')
+    tot = inputs[0]
+    for t in inputs[1:]:
+      tot = tot + t
+    return tot / float(len(inputs))
+
+
+class _Reshape(Layer):
+
+  def __init__(self, target_shape, **kw):
+    super(_Reshape, self).__init__(**kw)
+    self.target_shape = tuple(target_shape)
+
+  def call(self, inputs):
+    return tfc.reshape(inputs, [int(inputs.shape[0])] + list(self.target_shape))
+
+
 class _LayersNS(types.ModuleType):
   Layer = Layer
   InputSpec = InputSpec
-
-  class Concatenate(_NotModelled):
-    pass
-
-  class Reshape(_NotModelled):
-    pass
-
-  class Average(_NotModelled):
-    pass
+  Concatenate = _Concatenate
+  Reshape = _Reshape
+  Average = _Average
 
   class Input(_NotModelled):
     pass
@@ -404,8 +446,10 @@ class _BackendNS(types.ModuleType):
 backend = _BackendNS('tensorflow.keras.backend')
 
 
-def Input(*a, **k):  # pylint: disable=invalid-name
-  raise tfc.NoContract('keras.Input is not modelled')
+def Input(shape=None, batch_size=None, name=None, dtype=None, ragged=False, **k):  # pylint: disable=invalid-name
+  if INPUT_PROVIDER[0] is None or ragged:
+    raise tfc.NoContract('keras.Input is not modelled (no input provider / ragged)')
+  return INPUT_PROVIDER[0](name, tuple(shape), tfc.as_dtype(dtype or 'float32'))
 
 
 def install():
